@@ -19,7 +19,10 @@ use packing::{SharedValue, StandardBasis};
 use serde::Serialize;
 
 pub const NP: usize = 3; // max parameters of the mock
+#[cfg(kani)]
 pub const MAXC: usize = 16; // max logged score() calls
+#[cfg(not(kani))]
+pub const MAXC: usize = 64;
 pub const MAXE: usize = 16; // max logged exp calls
 
 /// Optimiser configuration as the harness sets it (mirrors BuildOptimiser's setters).
@@ -44,7 +47,7 @@ pub struct Cfg {
 #[derive(Clone, Copy, Debug)]
 pub struct Script {
     /// bit t = proposal at call t has a defined score
-    pub valid: u32,
+    pub valid: u64,
     pub score: [f64; MAXC],
     pub init_score: f64,
 }
